@@ -676,6 +676,7 @@ func main() {
 	flag.Parse()
 	tier := drv.Tier(*tierF)
 	r := seq.New("C18", tier, "model_checking")
+	defer r.CrashGuard()
 	r.Rule = "one evaluation = one history of ResponseWriter calls with scripted answers of the underlying writer through AccessHandler (against refproxy), or one chain of field handlers serving two requests in sequence, or one interleaving of 2-3 requests served concurrently through NewHandler + field handlers over the instrumented zerolog; states = distinct (configuration, outcome); non-trivial = a fault was injected / more than one handler / more than one request"
 	r.Assumptions = []string{"requests are driven by calling the handler directly with fake ResponseWriters (no network)", "request ids come from xid and are compared with the response header and for distinctness only", "concurrent part: scheduling points between every two handlers, before the final logging handler, and at every pool/atomic operation of zerolog"}
 	proxyPart(r, tier)
